@@ -467,6 +467,18 @@ func c04Phase(c *vk.Ctx, r *rand.Rand, natTimeout time.Duration, expiry bool) bo
 		}
 		// a datagram whose write to the target fails (destination port 0) changes nothing either
 		cl.Send(ssUDP(k, randBytes(r, k.Codec().C.SaltSize), sscodec.AddrIP(tgt.Addr.IP, 0, false), mkUDPPayload(nextID(c.Batch), 0, 0, 24)), w.rig.Addr4())
+		// nor do datagrams that carry the client's address but do not authenticate (spoofed, damaged in
+		// transit, or sent under a key that is gone): five in a row, garbage and a bit-flipped valid one
+		for i := 0; i < 5; i++ {
+			bad := randBytes(r, 40+r.Intn(200))
+			if i%2 == 1 {
+				bad = ssUDP(k, randBytes(r, k.Codec().C.SaltSize), tgt.addr(), mkUDPPayload(nextID(c.Batch), 0, 0, 24))
+				bad[len(bad)-1-r.Intn(len(bad)-1)] ^= 0x04
+			}
+			cl.Send(bad, w.rig.Addr4())
+		}
+		c.Count("unauthenticated_datagrams_on_live_associations", 5)
+		time.Sleep(20 * time.Millisecond)
 		// and the client still leaves from the same outbound address
 		id2 := nextID(c.Batch)
 		cl.Send(ssUDP(k, randBytes(r, k.Codec().C.SaltSize), tgt.addr(), mkUDPPayload(id2, 0, 0, 24)), w.rig.Addr4())
@@ -476,7 +488,7 @@ func c04Phase(c *vk.Ctx, r *rand.Rand, natTimeout time.Duration, expiry bool) bo
 			return false
 		}
 		if _, src2, _ := net.SplitHostPort(g2.From); src2 != src || len(w.rig.Rec.ByClient(cl.Addr.String())) != 1 {
-			c.Violation("C04/one-client-several-outbound-addresses-in-one-association", map[string]any{"client": cl.Addr.String(), "outbound_before": src, "outbound_after": src2, "associations": len(w.rig.Rec.ByClient(cl.Addr.String())), "history": "stray port-53 datagram, an oversized reply and a datagram to port 0 (failing write) in between (association timeout 30 s not reached)"})
+			c.Violation("C04/one-client-several-outbound-addresses-in-one-association", map[string]any{"client": cl.Addr.String(), "outbound_before": src, "outbound_after": src2, "associations": len(w.rig.Rec.ByClient(cl.Addr.String())), "history": "stray port-53 datagram, an oversized reply, a datagram to port 0 (failing write) and five datagrams that fail authentication in between (association timeout 30 s not reached)"})
 			return false
 		}
 		c.Count("young_associations_survive_strays_and_oversized_replies", 1)
